@@ -50,7 +50,7 @@ def gen_history(r, k):
     atoms = [list(a) for a in base["atoms"]]
     cases0 = [dict(c) for c in cs]          # the configuration as first written
     for e in range(r.randint(3, 5)):
-        kind = r.choice(["modify", "modify", "flags", "move", "nopbc", "badmodify", "period"])
+        kind = r.choice(["modify", "modify", "flags", "move", "nopbc", "badmodify", "period", "setparam"])
         line = None; ev = None
         if kind == "flags" and ncomp >= 2:
             fl = [r.randint(0, 1) for _ in cs]
@@ -68,6 +68,12 @@ def gen_history(r, k):
             confs = ["" for _ in cs]
             confs[j] = "period %s;wrapAround %s" % (G.g17(cs[j]["params"]["period"]), G.g17(cs[j]["params"]["wrap"]))
             line = "M | " + " ~ ".join(confs)
+        elif kind == "setparam" and ncomp == 1 and default:
+            # colvar::set_cvc_param (allowed for variables that were single-component with unit coefficient at initialisation)
+            if vector or r.random() < 0.6:
+                co = r.choice([2.0, -1.0, 0.5, 4.0]); line = "S componentCoeff " + G.hx(co); ev = ["M", "1", G.hx(co), "-"]
+            else:
+                ex = r.choice([2, 3, 1, 0]); line = "S componentExp %d" % ex; ev = ["M", "1", "-", "%d" % ex]
         elif kind == "move":
             for _ in range(30):
                 moved = [[a[0], a[1]] + [x + r.gauss(0, 0.3) for x in a[2:5]] for a in atoms]
